@@ -252,6 +252,7 @@ class Evaluator:
             self.path.inlined.add(key)
         node = fref.node
         env = Env(fref.module, self)
+        env.fref = fref
         self.bind_params(node, env, args, kwargs, fref)
         self.depth += 1
         if self.depth > 40:
@@ -336,7 +337,20 @@ class Evaluator:
         if st.exc is None:
             exc = env.get("__current_exc__")
             raise _Raise(exc)
-        v = self.eval(st.exc, env)
+        if isinstance(st.exc, ast.Call):
+            # the message arguments are not modelled; failures while building them are ignored
+            fnv = self.eval(st.exc.func, env)
+            try:
+                v = self.eval(st.exc, env)
+            except Unsupported:
+                if isinstance(fnv, ExcClass):
+                    v = ExcVal(fnv.name)
+                elif isinstance(fnv, S.ClassRef):
+                    v = ExcVal(fnv.name)
+                else:
+                    raise
+        else:
+            v = self.eval(st.exc, env)
         if isinstance(v, ExcClass):
             v = ExcVal(v.name)
         if not isinstance(v, ExcVal):
@@ -1127,6 +1141,16 @@ class Evaluator:
             return base[idx]
         if isinstance(base, Pit):
             return self.pit_get(base, idx, lineno, env)
+        if isinstance(base, PitComp):
+            r, c = idx if isinstance(idx, tuple) else (idx, None)
+            if isinstance(r, SliceV) and r.lo is None and r.hi is None and c is not None and is_scalar(c):
+                bf = base.base.f
+                return Comp(base.mask, lambda j, _c=c: bf(j, _c), "f")
+            if getattr(r, "is_arange_of", None) is base and isinstance(c, Comp):
+                bf, cf = base.base.f, c.f
+                self.same_mask(base.mask, c.mask, lineno)
+                return Comp(base.mask, lambda j: bf(j, cf(j)), "f")
+            raise Unsupported("index into a row-selected pit (line %d)" % lineno)
         if isinstance(base, RowView):
             return base.pit.at(base.i, idx)
         if isinstance(base, (Arr, ColView)):
@@ -1160,11 +1184,25 @@ class Evaluator:
 
     def pit_get(self, p, idx, lineno, env):
         if not isinstance(idx, tuple):
-            # pit[i] -> row view ; pit[mask] -> unsupported
+            # pit[i] -> row view ; pit[lo:hi] -> row-slice view ; pit[mask] -> row selection
             if is_scalar(idx):
                 return RowView(p, idx)
+            if isinstance(idx, SliceV) and idx.step is None:
+                if idx.lo is None and idx.hi is None:
+                    return p
+                return PitSlice(p, 0 if idx.lo is None else idx.lo, p.n if idx.hi is None else idx.hi)
+            if is_array(idx) and idx.kind == "b" and not isinstance(idx, Comp):
+                self.same_len(p.n, idx.n, lineno)
+                return PitComp(p, idx)
             raise Unsupported("pit row selection %r (line %d)" % (idx, lineno))
         r, c = idx
+        if isinstance(r, SliceV) and r.step is None and not (r.lo is None and r.hi is None):
+            sub = PitSlice(p, 0 if r.lo is None else r.lo, p.n if r.hi is None else r.hi)
+            if isinstance(c, SliceV) and c.lo is None and c.hi is None:
+                return sub
+            return self.pit_get(sub, (SliceV(None, None, None), c), lineno, env)
+        if isinstance(r, SliceV) and isinstance(c, SliceV) and c.lo is None and c.hi is None:
+            return p
         if isinstance(r, SliceV) and r.lo is None and r.hi is None and is_scalar(c):
             return ColView(p, c)
         if is_scalar(r) and is_scalar(c):
@@ -1220,6 +1258,19 @@ class Evaluator:
                     f = (lambda j, _n=f, _o=oldf, _g=g, _c=c: ite(_g, _n(j), _o(j, _c)))
                 base.set_col(c, f)
                 return
+            if isinstance(r, SliceV) and r.lo is None and r.hi is None and isinstance(c, SliceV) \
+                    and c.lo is None and c.hi is None:
+                # pit[:, :] = row vector (broadcast over rows)
+                if isinstance(v, (Arr,)) and not is_z3(v.n) and not isinstance(v.n, Count):
+                    vf = v.f
+                    oldf = base.f
+                    if isinstance(base, PitSlice):
+                        for cc in range(int(v.n)):
+                            base.set_col(cc, (lambda j, _cc=cc: vf(_cc)))
+                    else:
+                        base.f = (lambda i, cc: vf(cc))
+                    return
+                raise Unsupported("whole-pit store (line %d)" % lineno)
             if is_scalar(r) and is_scalar(c):
                 if isinstance(env, LoopEnv):
                     return env.write(self, base, c, r, v, lineno)
@@ -1354,9 +1405,9 @@ class Evaluator:
                         return fr
                     return BoundRepoMethod(obj, fr)
             raise _Raise(ExcVal("AttributeError", (attr,)))
-        if is_array(obj) or isinstance(obj, Pit):
+        if is_array(obj) or isinstance(obj, (Pit, PitComp)):
             if attr == "shape":
-                if isinstance(obj, Pit):
+                if isinstance(obj, (Pit, PitComp)):
                     return (obj.n, obj.ncols)
                 return (obj.n,)
             if attr == "dtype":
@@ -1380,10 +1431,20 @@ class Evaluator:
         raise Unsupported("attribute %s of %r (line %d)" % (attr, obj, lineno))
 
     def class_attr(self, cref, attr):
-        from .classes import lookup_method
+        from .classes import lookup_method, mro
         fr = lookup_method(cref, attr)
         if fr is None:
-            raise Unsupported("no attribute %s on class %s" % (attr, cref.name))
+            for c in mro(cref):
+                for st in c.node.body:
+                    if isinstance(st, ast.Assign) and any(isinstance(t, ast.Name) and t.id == attr
+                                                          for t in st.targets):
+                        return c.module._eval_const(st.value, 0)
+            if attr == "__name__":
+                return cref.name
+            raise _Raise(ExcVal("AttributeError", (attr,)))
+        deco = [d.id for d in fr.node.decorator_list if isinstance(d, ast.Name)]
+        if "staticmethod" in deco:
+            return fr
         return ClassMethodRef(cref, fr)
 
     def setattr(self, obj, attr, v, lineno):
@@ -1675,7 +1736,7 @@ class Env:
             return mod.functions[k]
         if k in mod.classes:
             return mod.classes[k]
-        if k in mod.const_nodes or k in mod.imports:
+        if k in mod.const_nodes or k in mod.imports or getattr(mod, "star_imports", None):
             kind, ref = S.resolve_import(mod, k)
             if kind == "opaque":
                 return Opaque("%s.%s" % ref)
@@ -1703,7 +1764,7 @@ class Env:
 BUILTINS = {"len", "range", "max", "min", "abs", "int", "float", "bool", "enumerate", "zip", "list",
             "tuple", "dict", "set", "isinstance", "hasattr", "getattr", "next", "sorted", "sum",
             "any", "all", "str", "round", "iter", "type", "repr", "frozenset", "reversed", "map",
-            "filter", "globals", "callable", "id", "print", "divmod", "object"}
+            "filter", "globals", "callable", "id", "print", "divmod", "object", "super"}
 EXC_NAMES = {"UserWarning", "ValueError", "KeyError", "IndexError", "AttributeError", "TypeError",
              "NotImplementedError", "Exception", "ImportError", "RuntimeError", "AssertionError",
              "ZeroDivisionError", "DeprecationWarning", "FutureWarning", "LookupError",
